@@ -63,7 +63,7 @@ def r_instances(ctx):
 
 
 def t_specs(ctx, rng, first_id, dups=0.0):
-    n = ctx.pick(120, 2000)
+    n = ctx.pick(120, 1500)
     confs = []
     for lev in (1, 2, 3, 4, 5, 10):
         for fee in ((0, 1), (1, 16), (1, 64)):
@@ -146,7 +146,7 @@ def run(ctx):
                              hist_of=lambda t: hists.get(t["id"]))
     # ---------------------------------------------------------------- T decimal lattice (step relations, scaled integers)
     from ..drivers import acct_fdec
-    dtr = acct_fdec.histories(ctx.pick(10, 260), ctx.pick(60, 1500), ctx.seed, first_id=len(traces) + 1)
+    dtr = acct_fdec.histories(ctx.pick(10, 200), ctx.pick(60, 1500), ctx.seed, first_id=len(traces) + 1)
     dverd, dres, dknife, (dexact, dexacteq) = acct_fdec.validate(dtr, ctx.scratch)
     dbad = acct_fdec.report(ctx, PID, dtr, dverd)
     ctx.log("T decimal: %d histories, %d events, %d rejected; %d knife-edge, %d exact-zone submissions (%d at equality)" % (
